@@ -42,6 +42,11 @@ type Ctx struct {
 	NotDecided  []string
 	clause      string
 	seen        map[string]bool
+
+	inlinedPairs *[][2]string
+	// BodyOnCaller: rules about the body of an inlined-away helper are evaluated on its only reference caller (set by rule groups whose
+	// checks are position-independent inside the function); otherwise the group is skipped with a note.
+	BodyOnCaller bool
 }
 
 type anchorError struct{ msg string }
@@ -113,11 +118,20 @@ func (c *Ctx) Undecided(key, rule string, pos token.Pos, format string, a ...int
 
 // Floor fails when a rule matched fewer instances than were confirmed by hand.
 func (c *Ctx) Floor(key string, got, want int) {
+	// a private helper written out inside its caller takes one function / one call edge out of a count; such trees get that much slack
+	if k := len(c.InlinedPairs()); got < want && got >= want-k && got > 0 {
+		c.Note("floor %s: %d instances, %d confirmed on the reference tree; accepted because %d private helper(s) were inlined on this tree", key, got, want, k)
+		want = got
+	}
 	c.CheckTrivial("floor/"+key, "instance-floor", got >= want, token.NoPos, "instances matched = %d, hand-confirmed floor = %d", got, want)
 }
 
 // Exactly fails when a closed set has a different size than confirmed by hand.
 func (c *Ctx) Exactly(key string, got, want int) {
+	if k := len(c.InlinedPairs()); got < want && got >= want-k && got > 0 {
+		c.Note("count %s: %d instances, %d confirmed on the reference tree; accepted because %d private helper(s) were inlined on this tree", key, got, want, k)
+		want = got
+	}
 	c.CheckTrivial("count/"+key, "instance-count", got == want, token.NoPos, "instances matched = %d, hand-confirmed count = %d", got, want)
 }
 
@@ -129,11 +143,19 @@ func (c *Ctx) Run(name string, f func()) {
 				c.add("anchor/"+name, "anchor-resolves", Undecided, false, token.NoPos, ae.msg)
 				return
 			}
+			if ie, ok := r.(inlinedError); ok {
+				c.Note("rule group %q is not evaluated beyond this point on this tree: its subject %s was inlined into %s (its body rules, where they exist, are evaluated on that caller)", name, ie.spec, ie.caller)
+				return
+			}
 			panic(r)
 		}
 	}()
 	f()
 }
+
+// inlinedError aborts a rule group whose subject — a private helper of the reference tree, as a callee — was written out inside its only
+// caller: the group is not evaluated on such a tree (a note, not an alarm: the code may be perfectly right), see DESIGN §1.2b.
+type inlinedError struct{ spec, caller string }
 
 func anchorFail(format string, a ...interface{}) {
 	panic(anchorError{fmt.Sprintf(format, a...)})
@@ -219,6 +241,9 @@ func (c *Ctx) Method(typeSpec, name string) *types.Func {
 	obj, _, _ := types.LookupFieldOrMethod(types.NewPointer(n), true, n.Obj().Pkg(), name)
 	f, ok := obj.(*types.Func)
 	if !ok {
+		if c.InlinedAway(typeSpec + "." + name) {
+			panic(inlinedError{typeSpec + "." + name, RefCallers[typeSpec+"."+name][0]})
+		}
 		anchorFail("method %s.%s not found", typeSpec, name)
 	}
 	return f
@@ -226,6 +251,9 @@ func (c *Ctx) Method(typeSpec, name string) *types.Func {
 
 // FuncObj returns a package-level function object.
 func (c *Ctx) FuncObj(spec string) *types.Func {
+	if c.InlinedAway(spec) {
+		panic(inlinedError{spec, RefCallers[spec][0]})
+	}
 	f, ok := c.Obj(spec).(*types.Func)
 	if !ok {
 		anchorFail("%q is not a function", spec)
@@ -262,11 +290,13 @@ func (c *Ctx) Fn(spec string) *ssa.Function {
 	}
 	// a private function of the reference tree that no longer exists was inlined into (or renamed inside) its caller: when the reference
 	// tree has exactly one caller for it, the rules written for its body are evaluated on that caller
-	if !strings.Contains(spec, "$") && !c.specExists(spec) {
-		if cs := RefCallers[spec]; len(cs) == 1 && c.specExists(cs[0]) {
-			c.Note("anchor %s no longer exists; its rules are evaluated on its only reference caller %s", spec, cs[0])
-			spec = cs[0]
+	if !strings.Contains(spec, "$") && c.InlinedAway(spec) {
+		cs := RefCallers[spec]
+		if !c.BodyOnCaller {
+			panic(inlinedError{spec, cs[0]})
 		}
+		c.Note("anchor %s no longer exists; its rules are evaluated on its only reference caller %s", spec, cs[0])
+		spec = cs[0]
 	}
 	base := spec
 	var anon []string
@@ -455,7 +485,7 @@ func PrivateCallers(p *Program) []string {
 				if strings.HasSuffix(p.Fset.Position(caller.Pos()).Filename, "_test.go") || caller == callee {
 					continue
 				}
-				l := specOf(callee) + "\t" + specOf(caller)
+				l := specOf(callee) + "\t" + specOf(caller) + "\t" + fmt.Sprint(FamilySize(callee)) + "\t" + fmt.Sprint(FamilySize(caller))
 				if !seen[l] {
 					seen[l] = true
 					out = append(out, l)
@@ -474,8 +504,98 @@ func (c *Ctx) InlinedAway(spec string) bool {
 		return false
 	}
 	cs := RefCallers[spec]
-	return len(cs) == 1 && c.specExists(cs[0])
+	if len(cs) != 1 || !c.specExists(cs[0]) {
+		return false
+	}
+	// evidence that the body moved (and was not deleted together with its call): the caller grew by at least half of the helper's size
+	hs, okH := RefSizes[spec]
+	rs, okC := RefSizes[cs[0]]
+	if !okH || !okC {
+		return true
+	}
+	now := c.sizeOfSpec(cs[0])
+	return now >= rs+hs/2
 }
+
+// InlinedPairs lists (helper spec, caller spec) for every private reference function that was inlined away on this tree.
+func (c *Ctx) InlinedPairs() [][2]string {
+	if c.inlinedPairs != nil {
+		return *c.inlinedPairs
+	}
+	var out [][2]string
+	var keys []string
+	for k := range RefCallers {
+		keys = append(keys, k)
+	}
+	sort.Strings(keys)
+	for _, k := range keys {
+		if c.InlinedAway(k) {
+			out = append(out, [2]string{k, RefCallers[k][0]})
+		}
+	}
+	c.inlinedPairs = &out
+	return out
+}
+
+// SpecForms renders a function spec the ways obligation keys name functions: core.FuncName style and the short style of the rules.
+func SpecForms(spec string) []string {
+	slash := strings.LastIndex(spec, "/")
+	dir, rest := spec[:slash+1], spec[slash+1:]
+	parts := strings.Split(rest, ".")
+	switch len(parts) {
+	case 2:
+		return []string{dir + rest, rest}
+	case 3:
+		return []string{
+			"(*" + dir + parts[0] + "." + parts[1] + ")." + parts[2], "(*" + parts[0] + "." + parts[1] + ")." + parts[2],
+			"(" + dir + parts[0] + "." + parts[1] + ")." + parts[2], "(" + parts[0] + "." + parts[1] + ")." + parts[2],
+		}
+	}
+	return nil
+}
+
+// sizeOfSpec: SSA instruction count of the function spec (closures included), 0 when it does not resolve.
+func (c *Ctx) sizeOfSpec(spec string) int {
+	slash := strings.LastIndex(spec, "/")
+	parts := strings.Split(spec[slash+1:], ".")
+	var obj types.Object
+	switch len(parts) {
+	case 2:
+		if pk := c.ByPath[spec[:slash+1]+parts[0]]; pk != nil {
+			obj = pk.Types.Scope().Lookup(parts[1])
+		}
+	case 3:
+		if pk := c.ByPath[spec[:slash+1]+parts[0]]; pk != nil {
+			if tn, ok := pk.Types.Scope().Lookup(parts[1]).(*types.TypeName); ok {
+				obj, _, _ = types.LookupFieldOrMethod(types.NewPointer(tn.Type()), true, pk.Types, parts[2])
+			}
+		}
+	}
+	f, ok := obj.(*types.Func)
+	if !ok {
+		return 0
+	}
+	fn := c.FuncOf(f)
+	if fn == nil {
+		return 0
+	}
+	return FamilySize(fn)
+}
+
+// FamilySize counts the SSA instructions of fn and of the function literals nested in it.
+func FamilySize(fn *ssa.Function) int {
+	n := 0
+	for _, b := range fn.Blocks {
+		n += len(b.Instrs)
+	}
+	for _, a := range fn.AnonFuncs {
+		n += FamilySize(a)
+	}
+	return n
+}
+
+// RefSizes: function spec -> SSA instruction count in the reference tree (third and fourth column of reference/callers.txt).
+var RefSizes = map[string]int{}
 
 // MethodIfExists is Method for a member of a *permitted* table (a function the rule merely tolerates): nil when it no longer exists.
 func (c *Ctx) MethodIfExists(typeSpec, name string) *types.Func {
@@ -490,11 +610,9 @@ func (c *Ctx) MethodIfExists(typeSpec, name string) *types.Func {
 // method is gone and the reference tree knows exactly one caller of it that still exists.
 func (c *Ctx) MethodOpt(typeSpec, name string) *types.Func {
 	spec := typeSpec + "." + name
-	if !c.specExists(spec) {
-		if cs := RefCallers[spec]; len(cs) == 1 && c.specExists(cs[0]) {
-			c.Note("method %s no longer exists (inlined into %s)", spec, cs[0])
-			return nil
-		}
+	if c.InlinedAway(spec) {
+		c.Note("method %s no longer exists (inlined into %s)", spec, RefCallers[spec][0])
+		return nil
 	}
 	return c.Method(typeSpec, name)
 }
